@@ -21,6 +21,7 @@ SO_LINGER = 13
 class Kernel:
     def __init__(self):
         self.listeners = {}  # (addr, port) -> VSocket (library side) | PeerListener (harness side)
+        self.time_wait = set()  # local (addr, port) of accepted connections this side closed first (FIN sent first, no RST)
         self.sockets = []
         self.peer_listeners = {}  # harness listening for connections made by the library
         self.send_menu = False  # offer short-write / EWOULDBLOCK / EPIPE choices on send
@@ -92,6 +93,9 @@ class VSocket:
         cur = self.k.listeners.get(tuple(addr))
         if cur is not None and cur.state in ("bound", "listening"):
             raise OSError(errno.EADDRINUSE, "Address already in use")
+        if tuple(addr) in self.k.time_wait and not self.reuse:
+            # Linux: a connection of this port in TIME_WAIT blocks bind() unless SO_REUSEADDR was set on the socket *before* bind
+            raise OSError(errno.EADDRINUSE, "Address already in use")
         self.addr = tuple(addr)
         self.state = "bound"
         self.k.listeners[self.addr] = self
@@ -129,6 +133,7 @@ class VSocket:
         other.is_peer = getattr(lst, "is_peer", False)
         other.state = self.state = "connected"
         other.peer, self.peer = self, other
+        other.local_addr = tuple(addr)
         lst.accept_queue.append(other)
 
     # ---- data
@@ -229,6 +234,8 @@ class VSocket:
         if was in ("bound", "listening") and self.k.peer_listeners.get(self.addr) is self:
             del self.k.peer_listeners[self.addr]
         if self.peer is not None:
+            if was == "connected" and not self.peer_closed and not self.abortive_close and getattr(self, "local_addr", None) is not None:
+                self.k.time_wait.add(self.local_addr)  # active close of an accepted connection: its local port is the listening port
             self.peer.peer_closed = True
             if self.abortive_close and was == "connected":
                 # RST: what already reached the peer's receive queue stays readable (checked on real loopback), what still sits in this
@@ -328,6 +335,7 @@ def peer_connect(addr, port):
     other = VSocket()
     mine.state = other.state = "connected"
     mine.peer, other.peer = other, mine
+    other.local_addr = (addr, port)
     lst.accept_queue.append(other)
     return mine
 
